@@ -40,6 +40,8 @@ pub struct Ctx {
     pub hang_secs: Option<u64>,
     /// shrinking budget (cases that are slow when they fail need a small one)
     pub max_shrink_iters: u32,
+    /// a confirmed hang is a violation of this property (C10 C14 C16); otherwise it is reported as inconclusive
+    pub hang_is_violation: bool,
 }
 
 impl Ctx {
@@ -49,14 +51,14 @@ impl Ctx {
             .ok()
             .and_then(|s| s.parse::<usize>().ok())
             .unwrap_or_else(|| std::thread::available_parallelism().map(|n| n.get()).unwrap_or(4).min(16));
-        Ctx { prop, tier, seed, workers, start: Instant::now(), level, hang_secs: None, max_shrink_iters: 4000 }
+        Ctx { prop, tier, seed, workers, start: Instant::now(), level, hang_secs: None, max_shrink_iters: 4000, hang_is_violation: matches!(prop, "C10" | "C14" | "C16") }
     }
     pub fn quick(&self) -> bool {
         self.tier == Tier::Quick
     }
     /// same context with another shrinking budget (socket phases: failing cases are slow)
     pub fn with_shrink(&self, n: u32) -> Ctx {
-        Ctx { prop: self.prop, tier: self.tier, seed: self.seed, workers: self.workers, start: self.start, level: self.level, hang_secs: self.hang_secs, max_shrink_iters: n }
+        Ctx { prop: self.prop, tier: self.tier, seed: self.seed, workers: self.workers, start: self.start, level: self.level, hang_secs: self.hang_secs, max_shrink_iters: n, hang_is_violation: self.hang_is_violation }
     }
     /// pick by tier
     pub fn by<T>(&self, q: T, t: T) -> T {
@@ -519,6 +521,13 @@ pub const EXIT_INCONCLUSIVE: i32 = 2;
 
 /// A worker stalled: replay the saved case in a fresh subprocess. Only a reproduced stall is a violation.
 pub fn confirm_hang_and_exit(ctx: &Ctx, path: &str, hang: u64) -> ! {
+    if !ctx.hang_is_violation {
+        println!(
+            "INCONCLUSIVE: a case did not return within {} s (the code under test hangs or deadlocks; that is the business of C10/C16, not of {}); case saved to {}",
+            hang, ctx.prop, path
+        );
+        std::process::exit(EXIT_INCONCLUSIVE);
+    }
     let exe = std::env::current_exe().unwrap();
     println!("suspected hang, confirming {} in a fresh process", path);
     let child = std::process::Command::new(exe)
